@@ -119,7 +119,7 @@ def simulate(sc):
     import zeroconf._services.registry as regm
 
     sim = vsim.Sim(seed=sc["seed"] * 7919 + sc["idx"], maxdelay=0, loopback=True)
-    obs = {"blocks": [], "escapes": [], "api_raised": [], "notes": []}
+    obs = {"blocks": [], "escapes": [], "api_raised": [], "notes": [], "inv": []}
     saved = []
     st = {"zc": None, "on": False, "browsers": [], "lookups": [], "users": [], "cbs": [], "strict": True, "seen": set()}
 
@@ -137,6 +137,49 @@ def simulate(sc):
                 "lookups": sum(1 for l in ls if isinstance(l, inf.ServiceInfo)),
                 "users": ["%d+%d" % (u.n1, u.n2) for u in st["users"]]}
 
+    def inv_line():
+        """the real instance's state at a block boundary, as `c15inv` reads it (review 2: the invariants of the composite are
+        evaluated on the implementation, not only on the model)"""
+        import zeroconf
+        zc = st["zc"]
+        hs, hx = C.hs, C.hx
+        V4, V6 = zeroconf.IPVersion.V4Only, zeroconf.IPVersion.V6Only
+        t = []
+        svcs = list(zc.registry._services.values())
+        t.append(str(len(svcs)))
+        for i in svcs:
+            a4, a6 = i.addresses_by_version(V4), i.addresses_by_version(V6)
+            t += [hs(i.name), hs(i.type), hs(i.server or i.name), str(i.port or 0), hx(i.text or b""), str(len(a4))] + [hx(a) for a in a4]
+            t += [str(len(a6))] + [hx(a) for a in a6] + [str(i.host_ttl), str(i.other_ttl)]
+        for idx in (zc.registry.types, zc.registry.servers):
+            t.append(str(len(idx)))
+            for k, v in idx.items():
+                t += [hs(k), str(len(v))] + [hs(x) for x in v]
+        t.append("1" if zc.registry.has_entries else "0")
+        for idx in (zc.cache.cache, zc.cache.service_cache):
+            t.append(str(len(idx)))
+            for k, v in idx.items():
+                t += [hs(k), str(len(v))] + [C.rec_line(r) for r in v.values()]
+        t.append(str(len(st["browsers"])))
+        for b in st["browsers"]:
+            qs = b.query_scheduler
+            ids = {}
+            for o in list(qs._next_scheduled_for_alias.values()) + list(qs._query_heap):
+                ids.setdefault(id(o), len(ids))
+            t.append(str(len(qs._next_scheduled_for_alias)))
+            for a, o in qs._next_scheduled_for_alias.items():
+                t += [hs(a), str(ids[id(o)])]
+            t.append(str(len(qs._query_heap)))
+            for o in qs._query_heap:
+                t += [str(ids[id(o)]), hs(o.alias), hs(o.name), "1" if o.cancelled else "0"]
+            t += [str(len(qs._types))] + [hs(x) for x in sorted(qs._types)]
+            t.append(str(len(b._pending_handlers)))
+        names = []
+        for i in st["lookups"]:
+            names += [i.name] + ([i.server] if i.server else [])
+        t += [str(len(names))] + [hs(n) for n in names]
+        return "c15inv " + " ".join(t)
+
     def close_prev():
         """the state at the start of a logged block is the state after the previous one"""
         if obs["blocks"]:
@@ -150,6 +193,11 @@ def simulate(sc):
         if not st["on"]:
             return None
         close_prev()
+        if len(obs["blocks"]) % 7 == 3 and len(obs["inv"]) < 6:
+            try:
+                obs["inv"].append((len(obs["blocks"]), inv_line()))
+            except Exception as e:   # e.g. a name that is not text: the harness must not crash
+                obs["notes"].append("inv extraction failed: %s" % B.exc_name(e))
         b = dict(op=op, t=int(sim.loop.ms), **kw)
         obs["blocks"].append(b)
         return b
@@ -358,6 +406,10 @@ def simulate(sc):
             except Exception as e:
                 obs["api_raised"].append({"op": "task", "exc": B.exc_name(e)})
         close_prev()
+        try:
+            obs["inv"].append((len(obs["blocks"]), inv_line()))
+        except Exception as e:
+            obs["notes"].append("inv extraction failed: %s" % B.exc_name(e))
         st["on"] = False
         obs["end"] = sim.now()
         for b in pending:
@@ -432,6 +484,10 @@ def compare(res, sc, obs, ml):
     return True
 
 
+INV_NAMES = ["index", "regsafe", "cacheshape", "svcshape", "names", "fields", "hd", "pending", "typessafe", "heapnames", "lookok"]
+INV_OK = " ".join("1" for _ in INV_NAMES)
+
+
 def known_sigs():
     try:
         k = json.loads((C.ROOT / "known_findings.json").read_text()).get("entries", [])
@@ -493,6 +549,23 @@ def run_stream(res, ctx, n):
     nbad = 0
     for (sc, obs), ml in zip(acc, out):
         if not compare(res, sc, obs, ml):
+            nbad += 1
+            if nbad >= 5:
+                break
+    # the clauses of the composite invariant, evaluated on the states extracted from the real instance
+    inv = [(sc, k, line) for sc, o in acc for k, line in o["inv"]]
+    try:
+        iout = C.run_driver([line for _sc, _k, line in inv])
+    except C.DriverUnavailable as ex:
+        res.notes.append("driver unavailable: %s" % ex)
+        return
+    nbad = 0
+    for (sc, k, line), ml in zip(inv, iout):
+        res.evaluations += 1
+        res.count("inv-states")
+        if ml != INV_OK:
+            bits = dict(zip(INV_NAMES, ml.split(" "))) if ml and ml[0] in "01" else ml[:80]
+            res.disagree("c15inv", {"scenario": sc, "before_block": k, "line": line[:4000]}, INV_OK, bits)
             nbad += 1
             if nbad >= 5:
                 break
